@@ -273,6 +273,8 @@ structure BInv (c : Ctx) (fm : List FirstSet) (E : Nat → Sym Nat Nat → Prop)
   hasStart : startItem c ∈ b.states.getD 0 []
   /-- the cores of state 0 are generated from the core of the augmented initial item -/
   zcore : ∀ y ∈ b.states.getD 0 [], CReach c fm (fun p => p = (c.numRules, 0)) (coreOf y)
+  /-- no state is empty -/
+  inhabited : ∀ i, i < b.states.length → ∃ y, y ∈ b.states.getD i []
   /-- every item of every state is generated by the LALR(1) propagation rules -/
   just : ∀ i, i < b.states.length → ∀ y ∈ b.states.getD i [], Deriv c fm 0 b.transitions i y
 
@@ -662,6 +664,18 @@ theorem enqueueTarget_spec {c : Ctx} {fm : List FirstSet} (hwf : CtxWF c) (hfb :
           rcases sp.same 0 inv.nonempty with e | ⟨e, _⟩
           · rw [e] at hy; exact inv.zcore y hy
           · exact absurd e.symm sp.jne
+        inhabited := by
+          intro k hk'
+          have hk' : k < b1.states.length := hk'
+          by_cases hlt : k < b.states.length
+          · obtain ⟨y, hy⟩ := inv.inhabited k hlt
+            exact ⟨y, sp.mono k hlt y hy⟩
+          · rcases sp.lenCases with e | ⟨e, ej⟩
+            · omega
+            · have hkj : k = j := by omega
+              subst hkj
+              obtain ⟨y, hy, _⟩ := hk
+              exact ⟨y, sp.sub y hy⟩
         just := by
           intro k hk' y hy
           have hsubT : ∀ t ∈ b.transitions, t ∈ insertTransition b1.transitions ⟨i, j, X⟩ := by
@@ -777,7 +791,7 @@ theorem enqueueTargets_spec {c : Ctx} {fm : List FirstSet} (hwf : CtxWF c) (hfb 
     intro b b' inv hi _ h
     simp only [enqueueTargets] at h
     cases h
-    refine ⟨inv.nonempty, inv.good, inv.queue, inv.trans, inv.zero, ?_, inv.distinct, inv.tcore, inv.func, inv.aug, inv.hasStart, inv.zcore, inv.just⟩
+    refine ⟨inv.nonempty, inv.good, inv.queue, inv.trans, inv.zero, ?_, inv.distinct, inv.tcore, inv.func, inv.aug, inv.hasStart, inv.zcore, inv.inhabited, inv.just⟩
     intro i' hi' hq X' hX'
     rcases inv.done i' hi' hq X' hX' with (h | ⟨_, k, hk, _⟩) | h
     · exact Or.inl h
@@ -864,6 +878,7 @@ theorem buildLoop_spec {c : Ctx} {fm : List FirstSet} (hwf : CtxWF c) (hfb : FmB
             aug := inv.aug
             hasStart := inv.hasStart
             zcore := inv.zcore
+            inhabited := inv.inhabited
             just := inv.just
             distinct := inv.distinct
             tcore := inv.tcore
@@ -919,6 +934,10 @@ theorem initial_inv {c : Ctx} {fm : List FirstSet} (hwf : CtxWF c) (hfb : FmBoun
         refine CReach.mono ?_ this
         rintro p ⟨x, hx, rfl⟩
         simp at hx; subst hx; rfl
+      inhabited := by
+        intro i hi
+        simp at hi; subst hi
+        exact ⟨startItem c, by simp only [List.getD_cons_zero]; exact h2 _ (List.mem_singleton.mpr rfl)⟩
       just := by
         intro i hi y hy
         simp at hi; subst hi
